@@ -15,9 +15,13 @@ package main
 // A loop becomes `whileFuel (loopFuel2|3 recv) cond body state` — see Model.lean; the tie lemmas
 // (Ties/Points*.lean) prove the rendered closure equal to the model's fuel-free state machine.
 //
-// Not in the subset (tied by the correspondence run only): GeometryCollection.Points — its captured
-// state holds a func value `p` and it dispatches Len()/Points() on interface values, i.e. it calls back
-// into all the other closures; (*Bounds).Points — `defer` + `switch`.
+// (*Bounds).Points: `defer func() { v++ }()` as the FIRST statement of the closure — the deferred statements run
+// after the operand of `return` has been evaluated (`let r := E; <deferred>; pure (r, state)`), and also when
+// the closure panics (then nobody sees the state); `switch TAG { case <int literals>: …; default: … }` as the
+// LAST statement, every clause ending in `return E` or `panic("…")` (↦ `Fault.explicit`), rendered as a
+// `match`; `b.Min`, `Point{b.Max.X, b.Min.Y}` as in extract.go.
+//
+// GeometryCollection.Points (captured func value, calls on interface values): collection.go.
 
 import (
 	"fmt"
@@ -36,6 +40,7 @@ type cenv struct {
 	pat    string
 	sty    string
 	inLoop bool
+	defers []ast.Stmt // body of `defer func() { … }()`
 }
 
 func (c *cenv) next(prefix string) string {
@@ -79,6 +84,14 @@ func (c *cenv) mexpr(x ast.Expr) ([]string, string, xkind) {
 		v := c.next("x")
 		h := append(append([]string{}, ha...), hb...)
 		return append(h, "let "+v+" ← idx "+a+" "+b), v, k
+	case *ast.SelectorExpr, *ast.CompositeLit:
+		// fields of a *Bounds receiver and Point literals built from them: pure, no lookups
+		if c.rk != kBox {
+			xfail("field selection in the closure of a type that is not *Bounds")
+		}
+		e := &xenv{vars: map[string]xkind{c.recv: kBox}, gty: map[string]string{c.recv: "*Bounds"}}
+		s, k := e.expr(x)
+		return nil, s, k
 	case *ast.CallExpr:
 		if fn, ok := t.Fun.(*ast.Ident); ok && fn.Name == "len" && len(t.Args) == 1 {
 			h, a, k := c.mexpr(t.Args[0])
@@ -228,7 +241,88 @@ func (c *cenv) stmtsM(ss []ast.Stmt, ind string, final string) string {
 			for _, l := range h {
 				out += ind + l + "\n"
 			}
+			if len(c.defers) > 0 {
+				// Go: the operand is evaluated, then the deferred function runs, then the caller gets the value
+				sv := c.incd
+				c.incd = map[string]bool{}
+				d := c.stmtsM(c.defers, ind, "pure (r', "+c.pat+")")
+				c.incd = sv
+				return out + ind + "let r' := " + e + "\n" + d
+			}
 			return out + ind + "pure (" + e + ", " + c.pat + ")"
+		case *ast.DeferStmt:
+			// defer func() { v++ … }()
+			fl, ok := t.Call.Fun.(*ast.FuncLit)
+			if !ok || idx != 0 || c.inLoop || final != "" || len(t.Call.Args) != 0 || fl.Type.Params.NumFields() != 0 ||
+				fl.Type.Results.NumFields() != 0 || hasReturn(fl.Body.List) || c.defers != nil || len(fl.Body.List) == 0 {
+				xfail("defer form outside the subset (only `defer func() { v++ }()` as the first statement of the closure)")
+			}
+			for _, ds := range fl.Body.List {
+				switch ds.(type) {
+				case *ast.IncDecStmt, *ast.AssignStmt:
+				default:
+					xfail("deferred statement %T outside the subset", ds)
+				}
+			}
+			c.defers = fl.Body.List
+		case *ast.SwitchStmt:
+			if t.Init != nil || t.Tag == nil || final != "" || idx != len(ss)-1 {
+				xfail("switch form outside the subset (only `switch TAG {…}` as the last statement)")
+			}
+			h, tag, k := c.mexpr(t.Tag)
+			if k != kInt || len(h) != 0 {
+				xfail("switch tag is not a plain int expression")
+			}
+			out += ind + "match " + tag + " with\n"
+			hasDefault := false
+			seen := map[string]bool{}
+			for ci, cl := range t.Body.List {
+				cc := cl.(*ast.CaseClause)
+				var pats []string
+				if cc.List == nil {
+					if ci != len(t.Body.List)-1 {
+						xfail("default clause is not the last one")
+					}
+					hasDefault = true
+					pats = []string{"_"}
+				}
+				for _, pe := range cc.List {
+					lit, ok := pe.(*ast.BasicLit)
+					if !ok || lit.Kind != token.INT || strings.HasPrefix(lit.Value, "0") && lit.Value != "0" || seen[lit.Value] {
+						xfail("case label that is not a distinct decimal int literal")
+					}
+					seen[lit.Value] = true
+					pats = append(pats, lit.Value)
+				}
+				for _, bs := range cc.Body {
+					if br, ok := bs.(*ast.BranchStmt); ok {
+						xfail("%s in a switch clause", br.Tok)
+					}
+				}
+				c.incd = map[string]bool{}
+				out += ind + "| " + strings.Join(pats, " | ") + " => do\n" + c.stmtsM(cc.Body, ind+"  ", "") + "\n"
+			}
+			if !hasDefault {
+				xfail("switch without a default clause")
+			}
+			return strings.TrimRight(out, "\n")
+		case *ast.ExprStmt:
+			// panic("…") ends the clause; a deferred `v++` still runs, but the state is lost with the closure's caller
+			call, ok := t.X.(*ast.CallExpr)
+			fn, ok2 := func() (*ast.Ident, bool) {
+				if !ok {
+					return nil, false
+				}
+				id, ok := call.Fun.(*ast.Ident)
+				return id, ok
+			}()
+			if !ok || !ok2 || fn.Name != "panic" || len(call.Args) != 1 || final != "" || idx != len(ss)-1 {
+				xfail("expression statement other than a final panic(…)")
+			}
+			if lit, ok := call.Args[0].(*ast.BasicLit); !ok || lit.Kind != token.STRING {
+				xfail("panic of a non-literal")
+			}
+			return out + ind + "Except.error Fault.explicit"
 		default:
 			xfail("statement %T outside the closure subset", st)
 		}
@@ -255,7 +349,7 @@ func trPoints(fd *ast.FuncDecl, stem string) string {
 	}
 	rt := typeName(fd.Recv.List[0].Type)
 	gi, ok := gtypes[rt]
-	if !ok || gi.name == "" {
+	if !ok || (gi.name == "" && rt != "*Bounds") {
 		xfail("receiver type %s", rt)
 	}
 	fresh := 0
